@@ -502,6 +502,36 @@ func rulePair(w *World, r *Report) {
 				gotOr[c] = true
 			}
 		})
+		// the same with a plain assignment (flag = X): the constant arrives at a join from the and / or branch
+		EachInstr(fn, func(in ssa.Instruction) {
+			p, ok := in.(*ssa.Phi)
+			if !ok || !isIntegerType(p.Type()) {
+				return
+			}
+			for i, e := range p.Edges {
+				c, okc := constInt(e)
+				if !okc || c == 0 {
+					continue
+				}
+				pred := p.Block().Preds[i]
+				facts := proxyFacts(pred)
+				for _, f := range factsAtEdgeTo(pred, p.Block()) {
+					if a := proxyAtom(f.Cond); a != "" {
+						if f.Truth {
+							facts = append(facts, a+"=T")
+						} else {
+							facts = append(facts, a+"=F")
+						}
+					}
+				}
+				if hasAll(facts, "and=T") {
+					gotAnd[c] = true
+				}
+				if hasAll(facts, "or=T") {
+					gotOr[c] = true
+				}
+			}
+		})
 		r.Check(len(gotAnd) == 1 && gotAnd[s.and], rule, w.Pos(fn.Pos()), s.fn, fmt.Sprintf("under isAndOpNode(parent): flag |= %v", keysInt(gotAnd)), s.what+" of an and-parent", fmt.Sprintf("want |= %d under isAndOpNode(parent)", s.and))
 		r.Check(len(gotOr) == 1 && gotOr[s.or], rule, w.Pos(fn.Pos()), s.fn, fmt.Sprintf("under isOrOpNode(parent): flag |= %v", keysInt(gotOr)), s.what+" of an or-parent", fmt.Sprintf("want |= %d under isOrOpNode(parent)", s.or))
 	}
